@@ -815,10 +815,10 @@ func genHistory(t *rapid.T) history {
 
 type restartCase struct {
 	Cfg     int   `json:"cfg"`
-	At      []int `json:"at"`       // request ordinals (over the whole DI→TO0→TO1→TO2 chain) before which the server is rebuilt; -1: before every request
-	MTU     int   `json:"mtu"`      // device receive MTU (stored in the session)
-	Modules int   `json:"modules"`  // extra device modules (devmod size)
-	Reuse   bool  `json:"reuse"`    // credential reuse
+	At      []int `json:"at"`      // request ordinals (over the whole DI→TO0→TO1→TO2 chain) before which the server is rebuilt; -1: before every request
+	MTU     int   `json:"mtu"`     // device receive MTU (stored in the session)
+	Modules int   `json:"modules"` // extra device modules (devmod size)
+	Reuse   bool  `json:"reuse"`   // credential reuse
 }
 
 var restartCfgs = []deploy.Config{
@@ -978,6 +978,128 @@ func evalRestart(c restartCase) ev.Result {
 	return res
 }
 
+// ---- sessions used in parallel ------------------------------------------------------------
+
+type concCase struct {
+	Workers int `json:"workers"`
+	Rounds  int `json:"rounds"`
+	Seed    int `json:"seed"`
+}
+
+// evalConcurrent: several goroutines, each with its own session tokens, store and read back
+// their own values through ONE *sqlite.DB at the same time (as concurrent HTTP requests of
+// different devices do). What a session stored is what it reads, foreign tokens grant nothing,
+// and no call fails.
+func evalConcurrent(c concCase) ev.Result {
+	poolOnce.Do(buildPools)
+	if poolErr != nil {
+		return ev.Failf("setup", "pools: %v", poolErr)
+	}
+	c.Workers = min(max(c.Workers, 2), 16)
+	c.Rounds = min(max(c.Rounds, 1), 60)
+	dir := deploy.ScratchDir()
+	defer os.RemoveAll(dir)
+	w := &world{path: filepath.Join(dir, "state.db")}
+	var err error
+	if w.db, err = sqlite.Open(w.path, ""); err != nil {
+		return ev.Failf("setup", "open: %v", err)
+	}
+	defer func() { _ = w.db.Close() }()
+	other, err := sqlite.Open(filepath.Join(dir, "other.db"), "")
+	if err != nil {
+		return ev.Failf("setup", "open other: %v", err)
+	}
+	foreign, err := other.NewToken(context.Background(), protocol.TO2Protocol)
+	_ = other.Close()
+	if err != nil {
+		return ev.Failf("setup", "foreign token: %v", err)
+	}
+	var mu sync.Mutex
+	var fail *ev.Result
+	report := func(key, format string, a ...any) {
+		mu.Lock()
+		if fail == nil {
+			r := ev.Failf(key, format, a...)
+			fail = &r
+		}
+		mu.Unlock()
+	}
+	failed := func() bool { mu.Lock(); defer mu.Unlock(); return fail != nil }
+	var wg sync.WaitGroup
+	start := make(chan struct{})
+	for g := 0; g < c.Workers; g++ {
+		wg.Add(1)
+		go func(g int) {
+			defer wg.Done()
+			defer func() {
+				if p := recover(); p != nil {
+					report("concurrent-panic", "worker %d panicked: %v", g, p)
+				}
+			}()
+			<-start
+			for round := 0; round < c.Rounds && !failed(); round++ {
+				p := protos[(g+round+c.Seed)%len(protos)]
+				tok, err := w.db.NewToken(context.Background(), p)
+				if err != nil {
+					report("concurrent-newtoken", "worker %d round %d: NewToken: %v", g, round, err)
+					return
+				}
+				s := &slot{proto: p, token: tok, live: true, fields: map[string][]byte{}}
+				ctx := w.ctx(tok)
+				fs := fieldsOf[p]
+				for k := 0; k < 4; k++ {
+					f := fs[(k+g+round)%len(fs)]
+					if _, done := s.fields[f]; done && setOnce[f] {
+						continue
+					}
+					want, _, err := w.set(ctx, s, f, c.Seed+g*1000+round*17+k)
+					if err != nil {
+						report("concurrent-set", "worker %d round %d: storing %s through the session's own fresh token failed: %v", g, round, f, err)
+						return
+					}
+					s.fields[f] = want
+					if g%3 == 0 {
+						// a token of another database never grants anything
+						if _, err := w.get(w.ctx(foreign), s, f); err == nil {
+							report("concurrent-foreign-token", "worker %d: a token issued by another database read %s", g, f)
+							return
+						}
+					}
+				}
+				for f, want := range s.fields {
+					got, err := w.get(ctx, s, f)
+					if err != nil {
+						report("concurrent-get", "worker %d round %d: reading %s back through the same token failed: %v", g, round, f, err)
+						return
+					}
+					if f != "xsession" && f != "devmod" && f != "rvinfo" && !bytes.Equal(got, want) {
+						report("concurrent-wrong-value", "worker %d round %d: %s read back as %x, stored %x", g, round, f, got[:min(len(got), 24)], want[:min(len(want), 24)])
+						return
+					}
+				}
+				if round%2 == 0 {
+					if err := w.db.InvalidateToken(ctx); err != nil {
+						report("concurrent-invalidate", "worker %d round %d: InvalidateToken: %v", g, round, err)
+						return
+					}
+					if _, err := w.get(ctx, s, fs[0]); err == nil {
+						report("concurrent-dead-token", "worker %d round %d: an invalidated token still reads %s", g, round, fs[0])
+						return
+					}
+				}
+			}
+		}(g)
+	}
+	close(start)
+	wg.Wait()
+	if fail != nil {
+		return *fail
+	}
+	res := ev.OK(fmt.Sprintf("concurrent/workers=%d", c.Workers))
+	res.ID = fmt.Sprintf("%d|%d|%d", c.Workers, c.Rounds, c.Seed)
+	return res
+}
+
 func TestC18(t *testing.T) {
 	r := ev.Start(t, "C18")
 	defer r.Finish()
@@ -1013,6 +1135,10 @@ func TestC18(t *testing.T) {
 
 	r.SetRule("histories", "generated histories (7..62 operations) of the state interfaces against the real SQLite store and a reference model (maps): NewToken for all four protocols, every session setter/getter of the token's protocol with all value shapes (7 key-exchange sessions × 3 stages incl. both ASYMKEX sizes, 5 RvInfo shapes up to 40 directives, devmod with/without optional fields and 0..300 modules, both HMAC sizes, MTUs 0..65535 incl. 32767/32768, certificate chains of 1 and 2), InvalidateToken, close-and-reopen of the database file, attempts with 8 kinds of illegitimate token (empty, garbage, truncated, one character changed, extended, issued by another database, ...), AddVoucher / ReplaceVoucher / RemoveVoucher, SetRVBlob with past and future expiry. Oracle after every read, after every reopen and at the end (before and after a final reopen): each field of each token reads back exactly what the model holds for that token (restored key-exchange sessions must also complete the exchange and talk to the device side), unset fields give ErrNotFound, invalidated/illegitimate tokens give errors on read, write and invalidate and leave no trace, vouchers and rendezvous blobs match the model, expired blobs are not found. Non-trivial: ≥ 2 tokens and a reopen or an illegitimate token.")
 	ev.Rapid(r, "histories", ev.N{Quick: 480, Thorough: 40000}, genHistory, evalHistory)
+	r.SetRule("concurrent-sessions", "2..16 goroutines use ONE *sqlite.DB at the same time; each creates its own tokens (all four protocols), stores 4 fields per token, reads them back, tries a token of another database, invalidates every other token and reads again; 10..40 rounds per goroutine. Oracle: no call on a session's own fresh token fails, every value read is the value stored through that token, foreign and invalidated tokens read nothing, no panic. Schedules are whatever the Go scheduler produces (not enumerated).")
+	ev.Rapid(r, "concurrent-sessions", ev.N{Quick: 96, Thorough: 4000}, func(t *rapid.T) concCase {
+		return concCase{Workers: rapid.SampledFrom([]int{2, 4, 8, 8, 16}).Draw(t, "workers"), Rounds: rapid.IntRange(10, 40).Draw(t, "rounds"), Seed: rapid.IntRange(0, 1<<16).Draw(t, "seed")}
+	}, evalConcurrent)
 	ev.Rapid(r, "restarts", ev.N{Quick: 48, Thorough: 4000}, func(t *rapid.T) restartCase {
 		n := rapid.IntRange(1, 4).Draw(t, "n")
 		var at []int
